@@ -151,14 +151,14 @@ package jt808
 // there is a byte string u related to the frame by unescape's content clause, that the frame is accepted exactly when u
 // passes the XOR, header and length checks, and that every decoded field is read from u.
 //@   ghost u: unescape result0
-//@   ensures C01.u.len: old(w1(data) && w2(data)) ==> len(u) == len(data) - 2 - old(ec(data, len(data)-2))
-//@   ensures C01.u.content: old(w1(data) && w2(data)) ==> forall(k, 1, len(data)-1, !old(esec(data, k)) ==> u[k-1-old(ec(data,k))] == old(etok(data, k)))
-//@   ensures C01.u.iff: old(w1(data) && w2(data)) ==> iff(result == nil, utils.xorfold(u, len(u)) == 0 && len(u) >= 4 && len(u) >= hlen(u) && len(u) == hlen(u) + blen(u) + 1)
-//@   ensures C01.u.id: result == nil ==> j.Header.ID == be16(u, 0) && j.Header.Property.attribute == be16(u, 2)
-//@   ensures C01.u.serial: result == nil ==> j.Header.SerialNumber == be16(u, hbase(u) - 2)
-//@   ensures C01.u.proto: result == nil ==> j.Header.ProtocolVersion == ite(is2019(u), byte(3), byte(2))
-//@   ensures C01.u.bcd: result == nil ==> ptr(j.Header.bcdTerminalPhoneNo) == ptr(u) + ite(is2019(u), 5, 4) && len(j.Header.bcdTerminalPhoneNo) == ite(is2019(u), 10, 6)
-//@   ensures C01.u.body: result == nil ==> ptr(j.Body) == ptr(u) + hlen(u) && len(j.Body) == blen(u) && j.VerifyCode == u[len(u)-1]
+//@   ensures C01.C02.u.len: old(w1(data) && w2(data)) ==> len(u) == len(data) - 2 - old(ec(data, len(data)-2))
+//@   ensures C01.C02.u.content: old(w1(data) && w2(data)) ==> forall(k, 1, len(data)-1, !old(esec(data, k)) ==> u[k-1-old(ec(data,k))] == old(etok(data, k)))
+//@   ensures C01.C02.u.iff: old(w1(data) && w2(data)) ==> iff(result == nil, utils.xorfold(u, len(u)) == 0 && len(u) >= 4 && len(u) >= hlen(u) && len(u) == hlen(u) + blen(u) + 1)
+//@   ensures C01.C02.u.id: result == nil ==> j.Header.ID == be16(u, 0) && j.Header.Property.attribute == be16(u, 2)
+//@   ensures C01.C02.u.serial: result == nil ==> j.Header.SerialNumber == be16(u, hbase(u) - 2)
+//@   ensures C01.C02.u.proto: result == nil ==> j.Header.ProtocolVersion == ite(is2019(u), byte(3), byte(2))
+//@   ensures C01.C02.u.bcd: result == nil ==> ptr(j.Header.bcdTerminalPhoneNo) == ptr(u) + ite(is2019(u), 5, 4) && len(j.Header.bcdTerminalPhoneNo) == ite(is2019(u), 10, 6)
+//@   ensures C01.C02.u.body: result == nil ==> ptr(j.Body) == ptr(u) + hlen(u) && len(j.Body) == blen(u) && j.VerifyCode == u[len(u)-1]
 //@   ensures C09.own: result == nil ==> within(j.Body, data) || fresh(j.Body)
 //@   ensures C09.ownbcd: result == nil ==> within(j.Header.bcdTerminalPhoneNo, data) || fresh(j.Header.bcdTerminalPhoneNo)
 //@   ensures input: forall(k, 0, len(data), data[k] == old(data[k]))
